@@ -215,6 +215,10 @@ func (unpacker *RtpUnpackerAvcHevc) TryUnpackOne(list *RtpPacketList) (unpackedF
 
 func calcPositionIfNeededAvc(pkt *RtpPacket) {
 	b := pkt.Body()
+	if len(b) < 1 {
+		// no payload (e.g. padding only): the position stays unknown
+		return
+	}
 
 	// rfc3984 5.3.  NAL Unit Octet Usage
 	//
@@ -258,6 +262,10 @@ func calcPositionIfNeededAvc(pkt *RtpPacket) {
 		// |S|E|R|  Type   |
 		// +---------------+
 
+		if len(b) < 2 {
+			// the fu header is missing: the position stays unknown
+			return
+		}
 		fuIndicator := b[0]
 		_ = fuIndicator
 		fuHeader := b[1]
@@ -289,6 +297,10 @@ func calcPositionIfNeededAvc(pkt *RtpPacket) {
 
 func calcPositionIfNeededHevc(pkt *RtpPacket) {
 	b := pkt.Body()
+	if len(b) < 2 {
+		// shorter than the two-byte payload header: the position stays unknown
+		return
+	}
 
 	// +---------------+---------------+
 	// |0|1|2|3|4|5|6|7|0|1|2|3|4|5|6|7|
@@ -330,6 +342,10 @@ func calcPositionIfNeededHevc(pkt *RtpPacket) {
 
 		// Figure 10: The Structure of FU Header
 
+		if len(b) < 3 {
+			// the fu header is missing: the position stays unknown
+			return
+		}
 		startCode := (b[2] & 0x80) != 0
 		endCode := (b[2] & 0x40) != 0
 
